@@ -33,6 +33,21 @@ Theorem C18_restart :
 Proof. exact restart_partial. Qed.
 Print Assumptions C18_restart.
 
+(* ... field by field, the expiry included: the restored records (client id, state, MAC, address, EXPIRY) are
+   exactly the acknowledged ones, so a restart remembers the last acknowledged expiry of every lease (the file is
+   rewritten by every ACK, renewals included: C18_file_current in C18_glue.v). *)
+Theorem C18_restart_records :
+  forall (text : Type) (print : doc -> text) (read : text -> input),
+  yaml_roundtrip text print read ->
+  forall c cap0 i0 s cap t ord,
+    new c cap0 i0 = Ok s ->
+    persistable (d_n1 s) t = true ->
+    NoDup (map l_cid t) -> Permutation ord t ->
+    exists s', new c cap (read (print (save (d_n1 s) (d_n2 s) ord))) = Ok s'
+               /\ Permutation (map l_rec (d_table s')) (map l_rec (filter allocated t)).
+Proof. exact restart_records. Qed.
+Print Assumptions C18_restart_records.
+
 (* neither half of the invariant can be dropped: an Allocated lease with an empty client id, or with an address
    outside net1, is saved and then dropped by loadByteArray (both unreachable since the /repo repairs) *)
 Theorem C18_restart_needs_invariant :
